@@ -611,6 +611,9 @@ func suiteBytes(r *Rng, n int, thorough bool, o *Out) {
 				obs, pv = "panic", "FAIL:UnmarshalIdentifiers panicked"
 			case ierr != nil:
 				obs = "err"
+				if len(idens) > 0 {
+					pv = "FAIL:UnmarshalIdentifiers returned both a result and an error"
+				}
 			default:
 				is := make([]string, len(idens))
 				for i := range idens {
